@@ -1,0 +1,18 @@
+//go:build verif
+
+package parser
+
+// Read-only accessors for unexported token flags, used by the external
+// verification harness (build tag verif). They do not change any behaviour.
+
+// VerifHashIsIdentifier reports whether the hash token has the "id" type flag.
+func VerifHashIsIdentifier(h Hash) bool { return h.isIdentifier() }
+
+// VerifStringHasError reports whether the string token was ended by EOF.
+func VerifStringHasError(s String) bool { return s.flag&isErrorInString != 0 }
+
+// VerifURLHasError reports whether the url token was ended by EOF.
+func VerifURLHasError(u URL) bool { return u.flag&isErrorInURL != 0 }
+
+// VerifParseErrorKind returns the internal kind byte of a parse error.
+func VerifParseErrorKind(e ParseError) byte { return e.kind }
